@@ -86,6 +86,12 @@ func Project(doc, projection bsonkit.Doc) (bsonkit.Doc, error) {
 			}
 			value := bsonkit.Get(doc, path)
 			if value != bsonkit.Missing {
+				// copy the value as the merge step may write into it (e.g.
+				// {a: 1, "a.b": {$slice: 1}}) and must not reach the document
+				value, err = bsonkit.ConvertValue(value)
+				if err != nil {
+					return nil, err
+				}
 				_, err = bsonkit.Put(res, path, value, false)
 				if err != nil {
 					return nil, err
